@@ -165,6 +165,20 @@ def Packet.fromJson (j : Json) : Py Packet := do
   pure { dir := ← dirOfStr (← (← j.getD "direction").asStr), fields := ← (← (← j.getD "fields").asArr).mapM Field.fromJson,
          payload := ← ABuf.fromJson (← j.getD "payload"), raw := ← ABuf.fromJson (← j.getD "raw") }
 
+/-- `HeaderDescriptor` (id, length, fields) as a data class of its own -/
+structure HeaderDesc where
+  id : String
+  length : Nat
+  fields : List Field
+  deriving Repr
+
+def HeaderDesc.toJson (h : HeaderDesc) : Json :=
+  .obj [("id", .str h.id), ("length", .num h.length), ("fields", .arr (h.fields.map Field.toJson))]
+
+def HeaderDesc.fromJson (j : Json) : Py HeaderDesc := do
+  pure { id := ← (← j.getD "id").asStr, length := ← (← j.getD "length").asNat,
+         fields := ← (← (← j.getD "fields").asArr).mapM Field.fromJson }
+
 /-! ### the `__eq__` methods -/
 
 /-- dict equality of two forward mappings (same keys, equal values; order does not matter) -/
@@ -186,5 +200,7 @@ def Context.pyEq (a b : Context) : Bool :=
   a.id == b.id && a.interfaceId == b.interfaceId && a.parserId == b.parserId && listEq Rule.pyEq a.ruleset b.ruleset
 def Field.pyEq (a b : Field) : Bool := a.id == b.id && a.value.beq b.value && a.position == b.position
 def Packet.pyEq (a b : Packet) : Bool := a.fields.length == b.fields.length && a.raw.beq b.raw
+/-- dataclass equality: id, length, field list -/
+def HeaderDesc.pyEq (a b : HeaderDesc) : Bool := a.id == b.id && a.length == b.length && listEq Field.pyEq a.fields b.fields
 
 end Schc
